@@ -86,7 +86,7 @@ func runC12(r *Run) {
 	r.Returns("pow.GetAccountBlockHash", []string{"types.NewHash(append(a0.Address.Bytes(),a0.PreviousHash.Bytes()))"}, "PoW is bound to (address, previous hash)")
 	r.Has("pow.hashWithNonce", "copy(new([40]byte)[:40],a1[:])", "pre-image = nonce ‖ data hash")
 	r.Has("pow.hashWithNonce", "copy(new([40]byte)[:40][copy(new([40]byte)[:40],a1[:]):],a0[:])", "pre-image = nonce ‖ data hash")
-	r.Returns("pow.hashWithNonce", []string{"crypto.Hash(new([1][]byte)[:])[:8]"}, "first 8 bytes of the hash are compared")
+	r.Returns("pow.hashWithNonce", []string{"crypto.Hash(list(new([40]byte)[:40]))[:8]"}, "first 8 bytes of the hash are compared")
 	tg := "pow.getTargetByDifficulty"
 	r.Has(tg, "big.NewInt(0).Quo($two64,big.NewInt(conv:int64(a0)))", "2^64 / d")
 	r.Has(tg, "$two64.Sub($two64,big.NewInt(0).Quo($two64,big.NewInt(conv:int64(a0))))", "2^64 − 2^64/d")
